@@ -19,6 +19,7 @@ Streams
 import json
 
 from . import c04
+from . import c19scalar
 from . import seqlib as S
 
 PROPERTY = "C19"
@@ -62,6 +63,7 @@ def generate(rng, tier):
         c["failk"] = [rng.choice([0, 0, 1, 1, 2, 3]), rng.choice(EXCS)]
         c.pop("empty", None)
         yield "#" + json.dumps(c, separators=(",", ":"))
+    yield from c19scalar.generate(rng, n, EXCS)
 
 
 def _hit(sig, what, **kw):
@@ -73,6 +75,8 @@ def _hit(sig, what, **kw):
 def run_impl(case):
     if case.startswith("#"):
         c = json.loads(case[1:])
+        if "scalar" in c:
+            return c19scalar.run(c)
         out, hits, tags = c04.run_nested(c)
         fired = list(c04.LAST_FIRED)
         outs = out.split(" ; ")
